@@ -58,7 +58,7 @@ def generate(seed, idx, tier):
           'D': D, 'mesh': mesh, 'config': cfg, 'tree': tree,
           'lr': ds_gen.gen_lr(rng), 'param_seed': rng.randrange(1000),
           'params_follow': rng.random() < 0.5, 'ops': ops,
-          'oracles': ['refine']}
+          'oracles': ['refine', 'roots']}
 
 
 def run(plan):
